@@ -261,6 +261,14 @@ impl Ctx {
 
     /// Finish: write evidence, replay files, print verdict lines. Returns the process exit code.
     pub fn finish(&self, rule: &str, exhaustive: bool, assumptions: &[&str]) -> i32 {
+        for (i, loc, msg) in SUBJECT_PANICS.lock().unwrap().drain(..) {
+            let file = loc.trim_start_matches("/repo/").split(':').next().unwrap_or("").to_string();
+            self.violation(
+                &format!("{}:panic:{}:{}", self.prop, file, normalize_panic(&msg)),
+                &format!("the code under test panicked at {} while the check executed work item #{}: {}", loc, i, msg),
+                json!({"kind":"panic","item":i,"location":loc}),
+            );
+        }
         let g = self.inner.lock().unwrap();
         let mut unknown = 0;
         let mut known_hit = 0;
@@ -367,6 +375,22 @@ pub fn n_threads() -> usize {
         .unwrap_or_else(|| std::thread::available_parallelism().map(|n| n.get()).unwrap_or(8).min(16))
 }
 
+/// Panics raised by code of the subject inside a `par_for` item that no `Ctx::guard` caught:
+/// (item index, location, message). `Ctx::finish` turns them into violations.
+pub static SUBJECT_PANICS: Mutex<Vec<(usize, String, String)>> = Mutex::new(Vec::new());
+
+fn run_item<F: FnOnce()>(i: usize, f: F) {
+    if let Err(p) = std::panic::catch_unwind(std::panic::AssertUnwindSafe(f)) {
+        let loc = LAST_PANIC_LOC.with(|c| c.borrow().clone());
+        if loc.starts_with("/repo/") {
+            let msg = p.downcast_ref::<String>().cloned().or_else(|| p.downcast_ref::<&str>().map(|s| s.to_string())).unwrap_or_else(|| "panic".into());
+            SUBJECT_PANICS.lock().unwrap().push((i, loc, msg));
+        } else {
+            std::panic::resume_unwind(p);
+        }
+    }
+}
+
 /// Run `f(i)` for every i in 0..n on the worker pool (dynamic chunked sharding; order of
 /// evaluation is irrelevant for results because every case is independent).
 pub fn par_for<F: Fn(usize) + Sync>(n: usize, chunk: usize, f: F) {
@@ -382,7 +406,7 @@ pub fn par_for<F: Fn(usize) + Sync>(n: usize, chunk: usize, f: F) {
                 }
                 let end = (start + chunk).min(n);
                 for i in start..end {
-                    f(i);
+                    run_item(i, || f(i));
                 }
             });
         }
@@ -405,7 +429,16 @@ pub fn par_for_with<S, I: Fn() -> S + Sync, F: Fn(&mut S, usize) + Sync>(n: usiz
                     }
                     let end = (start + chunk).min(n);
                     for i in start..end {
-                        f(&mut st, i);
+                        let stp = &mut st;
+                        let mut poisoned = false;
+                        run_item(i, || f(stp, i));
+                        if SUBJECT_PANICS.lock().map(|g| g.last().map(|x| x.0 == i).unwrap_or(false)).unwrap_or(false) {
+                            poisoned = true;
+                        }
+                        if poisoned {
+                            // the worker state may be half-updated after a subject panic: rebuild it
+                            st = init();
+                        }
                     }
                 }
             });
